@@ -89,6 +89,12 @@ def step (d : DState) (req : List String) (impl : String) : DState × String :=
     let spec := expect (toString d.qf.len) impl
     let q := d.qf.newSet
     ({ d' with qf := q, touched := (q.len - 1) :: d.touched }, verdict spec m impl)
+  | ["grow", k] =>
+    -- `k` times `new_set` (hub family), answered once
+    let k := k.toNat?.getD 0
+    let uf' := (List.range k).foldl (fun u _ => (UF.step u .newSet).1) d.uf
+    let q := (List.range k).foldl (fun q _ => q.newSet) d.qf
+    ({ d with uf := uf', qf := q, lastDump := none, touched := [] }, verdict (expect "ok" impl) "ok" impl)
   | [f, x] =>
     let xn := x.toNat?.getD 0
     let mk : Option UF.Op := match f with
